@@ -8,7 +8,7 @@ from fractions import Fraction
 
 from ..sim import ops as opsmod
 from ..sim.gen import Gen
-from ..sim.geom import frac
+from ..sim.geom import dec, frac
 from ..sim.ledger import Ledger
 from ..sim.world import gen_world
 from .history import Oracle, account, list_source, run_history
@@ -110,8 +110,22 @@ class C04Oracle(Oracle):
                     self.ledger.vol[li][w] = got
         elif out.injected or kind in ("transfer", "distribute"):
             # interrupted, or a rejected multi-step operation whose sub-step order is the implementation's:
-            # nothing is claimed about the addressed wells (the frame condition above still holds)
-            pass
+            # the addressed wells may hold any partial application, but never more than the call adds to a
+            # well nor less than it removes from it
+            net = opsmod.net_per_well(pl)
+            if kind == "transfer" and not isinstance(dec(self.world["worklist"]["max_volume"]), int):
+                net = {}  # the splitter may ask for more than requested under a non-integer max_volume (C06)
+            for (li, w), (a, r) in net.items():
+                pre = self.ledger.vol[li][w]
+                v = now[li][w]
+                if v != v:
+                    continue
+                m = Fraction(1, 10 ** 9) * (abs(pre) + min(a, frac(1e300)) + min(r, frac(1e300)) + 1)
+                if frac(v) > pre + a + m or frac(v) < pre - r - m:
+                    self.fail("C04.rejected_bounds", i, op, out.exc_type,
+                              f"after the {'interrupted' if out.injected else 'rejected'} {kind}, {sess.geos[li].name}{w} holds {v!r}: "
+                              f"it held {float(pre)!r}, the call adds at most {float(a)!r} and removes at most {float(r)!r} there")
+                    break
         else:
             # rejected call: the addressed wells hold the prefix before the offending element, or nothing
             li = op["lab"]
